@@ -12,7 +12,7 @@ def run(ctx):
     ctx.explanation = ('Static clauses: (a) in param_lookup (non read-only parameters) the sources are consulted in the order override -> environment -> file -> default, each one only on the failure edge of '
                        'all the preceding ones, and the source recorded on each success edge matches the callee; (b) read-only parameters return the default; (c) lookup_env consults synonyms only when the '
                        'primary variable gave nothing, stopping at the first hit; (d) every --mca / --gmca instance is handed to process_arg, which joins a repeated parameter as "old,new", and every collected '
-                       'parameter is exported through parsec_setenv_mca_param.')
+                       'parameter is exported through parsec_setenv_mca_param; (e) the cached file/override flags of a registered parameter are only ever set (who-may-clear table), because lookup_file consumes the parsed-file entry it caches.')
     ctx.not_decided = 'string contents, file parsing, the environment encoding of the name.'
     u = ctx.extract(U1)
     ra = ctx.rule('R38.a', 'param_lookup precedence order and recorded source', floor=7)
@@ -84,6 +84,33 @@ def run(ctx):
     rets = [r for r in f.returns() if r.e is not None and r.e.cv == 1]
     rc.expect(all(f.guarded_by(r.point, lambda a, t: a.s == envv and t) for r in rets) and rets, 'env:found', rets[0].loc if rets else f.where(), 'lookup_env returns true only when a value was found', note='true only when env != NULL')
 
+    # (e) lookup_file() caches the file value on the parameter and removes it from the parsed-file list, so the
+    #     cached flag of a REGISTERED parameter must never be cleared (nor the override flag, except by unset):
+    #     who-may-clear table, confirmed by reading.
+    re_ = ctx.rule('R38.e', 'cached file/override value flags of registered parameters are only ever set, cleared only by the reviewed functions', floor=8)
+    CLEARERS = {('param_constructor', 'mbp_file_value_set'): 'object construction', ('param_constructor', 'mbp_override_value_set'): 'object construction',
+                ('parsec_mca_param_unset', 'mbp_override_value_set'): 'explicit unset of the override'}
+    for g in u.funcs().values():
+        if not g.file.endswith('mca_param.c'):
+            continue
+        for s_ in g.stores():
+            if s_.lhs.k == 'mem' and s_.lhs.n in ('mbp_file_value_set', 'mbp_override_value_set'):
+                base = s_.lhs.ch[0]
+                local_tmp = base.k == 'ref' and base.dk == 'var' and s_.lhs.op == '.'      # the entry being built on the stack
+                is_true = s_.rhs is not None and s_.rhs.cv == 1
+                ok = is_true or local_tmp or (g.name, s_.lhs.n) in CLEARERS
+                re_.expect(ok, 'flag-clear:%s:%s' % (g.name, s_.lhs.n), s_.loc,
+                           '%s stores %s into %s of a registered parameter: the cached value would be forgotten (only %s may clear these flags)' % (g.name, s_.rhs.s if s_.rhs is not None else '?', s_.lhs.s, sorted({k[0] for k in CLEARERS})),
+                           note='%s: %s = %s%s' % (g.name, s_.lhs.s, s_.rhs.s if s_.rhs is not None else '?', ' (stack temporary)' if local_tmp else ''))
+    # every copy of a file / override value into a registered entry sets the matching flag on the same path
+    g = u.func('param_register'); ctx.functions_analysed.add(g.name)
+    for kind in ('file', 'override'):
+        vals = [s_ for s_ in g.stores() if s_.lhs.k == 'mem' and s_.lhs.ch[0].k == 'mem' and s_.lhs.ch[0].n == 'mbp_%s_value' % kind and s_.lhs.ch[0].ch[0].k == 'idx' and not (s_.rhs is not None and s_.rhs.cv == 0)]
+        flags = [s_ for s_ in g.stores() if s_.lhs.k == 'mem' and s_.lhs.n == 'mbp_%s_value_set' % kind and s_.lhs.ch[0].k == 'idx' and s_.rhs is not None and s_.rhs.cv == 1]
+        for v in vals:
+            okp = any(g.postdominates(fl.point, v.point) or g.dominates(fl.point, v.point) for fl in flags)
+            re_.expect(okp, 'register:%s-flag' % kind, v.loc, 're-registration copies a %s value into the existing entry without marking it as set on every path' % kind, note='re-registration: %s value copied => flag set' % kind)
+
     # (d)
     u2 = ctx.extract(U2)
     f = u2.func('parsec_mca_cmd_line_process_args'); ctx.functions_analysed.add(f.name)
@@ -98,6 +125,13 @@ def run(ctx):
             hdrs = f.in_loop(c.block)
             lc = [f.cond(h) for h in hdrs if f.cond(h) is not None]
             ok = len(ni) == 1 and any(x.k == 'bin' and x.op == '<' and x.ch[1].s == ni[0].lhs.s for x in lc) and ', i, 0)' in c.args[0].s and ', i, 1)' in c.args[1].s
+            # the loop starts at instance 0 and advances by one
+            for fr in f.stmts_of_kind('for'):
+                n_ = f.nodes[fr]
+                if c.nid in set(f.ast_walk(n_['body'])):
+                    init = f.expr(n_['init']) if 'init' in n_ else None
+                    inc = f.expr(n_['inc']) if 'inc' in n_ else None
+                    ok = ok and init is not None and init.k == 'asg' and init.ch[0].s == 'i' and init.ch[1].cv == 0 and inc is not None and inc.k == 'un' and inc.op in ('pre++', 'post++') and inc.ch[0].s == 'i'
             env_target = {'mca': f.params[1]['n'], 'gmca': f.params[2]['n']}[opt]
             ae = [a for a in f.calls('add_to_env') if a.args[2].s == env_target]
             ok = ok and len(ae) == 1 and f.ordered(c, ae[0])
